@@ -262,7 +262,8 @@ class LocalFileStore(Store):
                     raise DDSException(
                         f"Requested to load path {path} but directory {loc_dir} does not exist"
                     )
-                if not os.path.exists(loc):
+                # (a path entry is a link to a blob: the directory that holds the entries of longer paths is not a path)
+                if not os.path.islink(loc) or not os.path.exists(loc):
                     raise DDSException(
                         f"Requested to load path {path} but path {loc} does not exist"
                     )
